@@ -134,7 +134,7 @@ func (w *World) OriginsUp(fn *ssa.Function, e *Expr, maxDepth int) []Up {
 				callers = append(callers, ed)
 			}
 		}
-		if !deps || len(callers) == 0 || depth >= maxDepth || seen[f] {
+		if !deps || len(callers) == 0 || depth >= maxDepth || seen[f] || w.IsRoot(f) {
 			out = append(out, Up{Top: f, Chain: chain, E: e})
 			return
 		}
@@ -190,4 +190,17 @@ func (w *World) OriginsUpTo(fn *ssa.Function, e *Expr, root *ssa.Function, maxDe
 	}
 	rec(fn, e, nil, 0, map[*ssa.Function]bool{})
 	return out
+}
+
+// IsRoot reports whether f is one of the discovered ABCI roots.
+func (w *World) IsRoot(f *ssa.Function) bool {
+	if w.rootSet == nil {
+		w.rootSet = map[*ssa.Function]bool{}
+		for _, fs := range w.Roots {
+			for _, g := range fs {
+				w.rootSet[g] = true
+			}
+		}
+	}
+	return w.rootSet[f]
 }
